@@ -311,4 +311,108 @@ theorem export_import_entries : ∀ kvs : List (String × Json), Json.WFObj kvs 
       export_import_entries kvs h.2]
 end
 
+/-! ### what `export` prints is again a value `import` accepts unchanged -/
+
+theorem insertKV_WFObj {k : String} {v : Json} (hv : v.WF) :
+    ∀ (l : List (String × Json)), Json.WFObj l → Json.WFObj (insertKV k v l)
+  | [], _ => by simp [insertKV, Json.WFObj, hv]
+  | (k', v') :: rest, h => by
+    simp only [Json.WFObj] at h
+    unfold insertKV
+    split
+    · simp [Json.WFObj, hv, h.1, h.2]
+    · split
+      · simp [Json.WFObj, hv, h.2]
+      · simp [Json.WFObj, h.1, insertKV_WFObj hv rest h.2]
+
+theorem fromEntries_WFObj (kvs : List (String × Json)) (h : Json.WFObj kvs) :
+    Json.WFObj (fromEntries kvs) := by
+  unfold fromEntries
+  have : ∀ (l acc : List (String × Json)), Json.WFObj l → Json.WFObj acc →
+      Json.WFObj (l.foldl (fun m kv => insertKV kv.1 kv.2 m) acc) := by
+    intro l
+    induction l with
+    | nil => intro acc _ h; simpa using h
+    | cons kv l ih =>
+      intro acc hl hacc
+      obtain ⟨k, v⟩ := kv
+      simp only [Json.WFObj] at hl
+      simp only [List.foldl_cons]
+      exact ih _ hl.2 (insertKV_WFObj hl.1 _ hacc)
+  exact this kvs [] h (by simp [Json.WFObj])
+
+theorem bytes_toJson_WF : ∀ b : List Nat, (∀ x ∈ b, x < 256) →
+    Json.WFList (SVal.toJsonList (b.map SVal.u8))
+  | [], _ => by simp [SVal.toJsonList, Json.WFList]
+  | x :: b, h => by
+    have hx : x < 256 := h x (by simp)
+    have ih := bytes_toJson_WF b (fun y hy => h y (by simp [hy]))
+    simp only [List.map_cons, SVal.toJsonList, SVal.toJson, Json.WFList, Json.WF, JNum.WF,
+      I64_MIN, I64_MAX]
+    exact ⟨by omega, ih⟩
+
+theorem scalar_export_WF (sc : Scalar) (h : sc.InRange) : sc.image.toJson.WF := by
+  cases sc with
+  | bytes b => simp only [Scalar.image, SVal.toJson, Json.WF]; exact bytes_toJson_WF b h
+  | str s => simp [Scalar.image, SVal.toJson, Json.WF]
+  | int i => simpa [Scalar.image, SVal.toJson, Json.WF, JNum.WF] using h
+  | uint n =>
+    simp only [Scalar.InRange] at h
+    simp only [Scalar.image, SVal.toJson]
+    split
+    · rename_i hle
+      simp only [Json.WF, JNum.WF, I64_MIN]
+      exact ⟨by omega, hle⟩
+    · rename_i hgt
+      simp only [Json.WF, JNum.WF]
+      exact ⟨by omega, h⟩
+  | f64 b =>
+    simp only [Scalar.image, SVal.toJson]
+    split
+    · rename_i hf; simpa [Json.WF, JNum.WF] using hf
+    · simp [Json.WF]
+  | counter a i => simpa [Scalar.image, SVal.toJson, Json.WF, JNum.WF] using h
+  | timestamp i => simpa [Scalar.image, SVal.toJson, Json.WF, JNum.WF] using h
+  | bool b => simp [Scalar.image, SVal.toJson, Json.WF]
+  | null => simp [Scalar.image, SVal.toJson, Json.WF]
+
+mutual
+theorem export_WF : ∀ v : Val, v.InRange → (exportJson v).WF
+  | .scalar sc, h => by
+    simp only [Val.InRange] at h
+    simp only [exportJson, Val.image]
+    exact scalar_export_WF sc h
+  | .text s, _ => by simp [exportJson, Val.image, SVal.toJson, Json.WF]
+  | .map es, h => by
+    simp only [Val.InRange] at h
+    simp only [exportJson, Val.image, SVal.toJson, Json.WF]
+    exact ⟨fromEntries_keysSorted _, fromEntries_WFObj _ (export_WF_entries es h)⟩
+  | .list rs, h => by
+    simp only [Val.InRange] at h
+    simp only [exportJson, Val.image, SVal.toJson, Json.WF]
+    exact export_WF_regs rs h
+theorem export_WF_entries : ∀ es : List (String × Reg), Val.InRangeEntries es →
+    Json.WFObj (SVal.toJsonEntries (Val.imageEntries es))
+  | [], _ => by simp [Val.imageEntries, SVal.toJsonEntries, Json.WFObj]
+  | (k, .live w ls) :: es, h => by
+    simp only [Val.InRangeEntries] at h
+    simp only [Val.imageEntries, SVal.toJsonEntries, Json.WFObj]
+    exact ⟨export_WF w h.1, export_WF_entries es h.2⟩
+  | (k, .dead) :: es, h => by
+    simp only [Val.InRangeEntries] at h
+    simp only [Val.imageEntries]
+    exact export_WF_entries es h
+theorem export_WF_regs : ∀ rs : List Reg, Val.InRangeRegs rs →
+    Json.WFList (SVal.toJsonList (Val.imageRegs rs))
+  | [], _ => by simp [Val.imageRegs, SVal.toJsonList, Json.WFList]
+  | .live w ls :: rs, h => by
+    simp only [Val.InRangeRegs] at h
+    simp only [Val.imageRegs, SVal.toJsonList, Json.WFList]
+    exact ⟨export_WF w h.1, export_WF_regs rs h.2⟩
+  | .dead :: rs, h => by
+    simp only [Val.InRangeRegs] at h
+    simp only [Val.imageRegs]
+    exact export_WF_regs rs h
+end
+
 end AmVerif
